@@ -65,6 +65,9 @@ pub struct Config {
 	/// C04: once per history, while transactions are pending, the chain grows by more than 50 blocks at once
 	/// (a transaction that is finalized long before it is broadcast)
 	pub burst: bool,
+	/// C15: a mining node re-requests a coinbase naming the key of an earlier coinbase of this wallet
+	/// (a still-unconfirmed candidate, or - a stale miner - one that is already confirmed)
+	pub stale_coinbase: bool,
 }
 
 pub struct Viol {
@@ -790,6 +793,27 @@ impl<'a> History<'a> {
 		self.ev("mine-burst", json!({"blocks": ok}), "Ok");
 	}
 
+	/// C15: `build_coinbase` with `key_id` naming an existing coinbase record of the wallet. Only a still
+	/// unconfirmed candidate may be replaced on its path; for any other record the wallet must hand out a
+	/// fresh path (judged by M-keypath after the step). The candidate built here is never mined.
+	pub fn op_stale_coinbase(&mut self, rng: &mut Rng) {
+		let wi = rng.usize(self.w.wallets.len());
+		let outs = self.w.wallets[wi].all_outputs().unwrap_or_default();
+		// (a candidate the wallet still records as unconfirmed although its block has been mined is left alone:
+		// naming it is a miner re-using the key of a block it has already found, not the re-request of the
+		// statement's exception, and the wallet cannot tell the difference before it refreshes)
+		let cbs: Vec<&OutputData> = outs.iter().filter(|o| o.is_coinbase && !(o.status == OutputStatus::Unconfirmed && self.w.is_unspent(&self.w.wallets[wi].commit_of(o)))).collect();
+		if cbs.is_empty() {
+			return;
+		}
+		let o = *rng.pick(&cbs);
+		let fees = 1_000_000 * (1 + rng.below(50));
+		let bf = libwallet::BlockFees { fees, key_id: Some(o.key_id.clone()), height: self.w.height() + 1 };
+		let r = self.w.wallets[wi].build_coinbase(&bf);
+		self.stat(&format!("op:coinbase-request-naming-{}-coinbase:{}", if o.status == OutputStatus::Unconfirmed { "an-unconfirmed" } else { "a-confirmed" }, if r.is_ok() { "ok" } else { "refused" }));
+		self.ev("build_coinbase(key named)", json!({"wallet": wi, "named": idstr(&o.key_id), "named_status": status_str(&o.status), "fees": fees}), &format!("{:?}", r.as_ref().map(|c| c.key_id.as_ref().map(idstr)).map_err(err_kind)));
+	}
+
 	pub fn op_cancel(&mut self, rng: &mut Rng) {
 		let live: Vec<usize> = (0..self.flights.len()).filter(|i| !self.flights[*i].dead).collect();
 		if live.is_empty() {
@@ -1203,6 +1227,8 @@ impl<'a> History<'a> {
 				self.op_advance(rng);
 			} else if r < 95 {
 				self.op_cancel(rng);
+			} else if r >= 93 && self.cfg.stale_coinbase && rng.chance(1, 3) {
+				self.op_stale_coinbase(rng);
 			} else if r >= 95 && self.cfg.hostile_invoice && rng.bool() {
 				self.op_hostile_invoice(rng);
 			} else if r < 97 && self.cfg.restarts {
